@@ -28,6 +28,9 @@ def check(rep, tier, replay=None):
         "instantiations, with a dense and a sparse outer Jacobian; every block must equal the product / chain rule as a polynomial identity, no view may leave its matrix, and a "
         "fixed-size view whose extent is Eigen::Dynamic (which does not compile) is reported.")
     dfm.check(rep, tier)
+    layers.flush(rep)      # reports of the supplementary source-level layer rules count only if a T rule on the optimized IR fails as well
+
+
 
 
 def check_df(rep):
